@@ -65,7 +65,11 @@ def run_games(games_dict):
             logging.info(f"Running example: {name}")
             start = time.time()
             sgame = StochasticGame(**game_copy)
-            n_transitions = sgame.count_transitions()
+            try:
+                n_transitions = sgame.count_transitions()
+            except TypeError:
+                # a state whose transitions are not a list (e.g. None): solve() reports it
+                n_transitions = 0
             if prev_game_had_solution:
                 try:
                     final_strategies, reachability_strategies, rewards, probabilities, iterations_reach, iterations_rew, reach_min_rewards, rewards_min_reach = sgame.solve()
